@@ -33,7 +33,8 @@ vars == <<q, last>>
 Spec == Init /\ [][Next]_vars
 
 O == [len |-> Len(q), front |-> IF q = <<>> THEN <<0, FALSE>> ELSE <<q[1], TRUE>>,
-      back |-> IF q = <<>> THEN <<0, FALSE>> ELSE <<q[Len(q)], TRUE>>, seq |-> q]
+      back |-> IF q = <<>> THEN <<0, FALSE>> ELSE <<q[Len(q)], TRUE>>, seq |-> q,
+      all |-> q]      \* All(): the iterator value was obtained when the list was created and is ranged now
 View == q
 St == [s |-> O, o |-> O, d |-> q]
 Emit == PrintT(ToJson([i |-> q = <<>>, f |-> St, op |-> last', t |-> St']))
